@@ -64,8 +64,9 @@ CLAIMED = {
               "of the same list, hence equal deviations, minima and fit-then-evaluate values, and return a value on the same inputs (fast_eq_sql_irmsd, fast_eq_sql_lrmsd); the zone computed in memory, written to an absent file or "
               "read back from that file gives the same outcome, also for the SQL i-RMSD routine (zone_sources_agree, irmsdSql_zone_file); Fnat fast = SQL is C08's fast_eq_sql_fnat and svd = quaternion C06's methods_agree. "
               "Correspondence: {fast,SQL} x {svd,quaternion} x {no zone, zone written, zone read} compared on generated complexes (equal chains, rank-flipping side chains, chain-size-flipping incomplete decoys, negative and "
-              "4-digit numbering, mirror-image decoys)."),
-        note=BASE_NOTE + "Route theorems need single-character chain IDs other than '-'/blank (C09-F4) and the RawAgrees/Consistent conditions of C07; values compared after the library's own rounding.",
+              "4-digit numbering, mirror-image decoys, decoys listing chain B before chain A; file names reused across cases). Props/C09K.lean: read_zone translated as a whole function and proved equal to the model's reader on an existing "
+              "file, FileNotFoundError otherwise (genr_read_zone_eq_model)."),
+        note=BASE_NOTE + "On a MALFORMED zone line (neither 2 nor 4 dash pieces) that follows a good line the real loop reuses the previous line's variables, where model and translation report UnboundLocalError: outside every property (library-written files never contain such lines except for chain '-', C09-F4); counted as outside the model by the harness. Route theorems need single-character chain IDs other than '-'/blank (C09-F4) and the RawAgrees/Consistent conditions of C07; values compared after the library's own rounding.",
         technique='Lean 4 theorems (zone round trip for all chains/numbers over the translated reader/writer; route agreement as corollaries of the pairing theorems) + metamorphic route comparison',
         design_ref='DESIGN.md 5/C09, 12'),
     'C16': dict(
@@ -144,7 +145,8 @@ CLAIMED = {
               "proofs forced (two chains, consistent residue names, raw columns agree with the parsed table); the value lies in [0,1] and is 1 for decoy = reference (fnat_in_unit_interval, fnat_self_one); the clash count "
               "equals the number of inter-chain heavy-atom pairs closer than 3 A when no pair is at exactly 3 A (clashes_eq_def_partial) and differs on a concrete pair at exactly 3 A "
               "(clashes_boundary_counterexample = known finding C08-F2, printed as KNOWN-FINDING). Correspondence: generated complexes with hydrogens, missing residues on either side, hydrogen-only residues, "
-              "blank names, chain IDs other than A/B, cutoffs 3-8, exact at-cutoff lattice distances."),
+              "blank names, chain IDs other than A/B, cutoffs 3-8, exact at-cutoff lattice distances; several cutoffs on the same reference in one process. Props/C08K.lean: compute_residue_pairs_ref (save_file=False) is translated and proved "
+              "equal to the model (genr_compute_residue_pairs_ref_eq_model); compute_fnat_fast is translated and compared with the real code through the driver (no equality theorem with Model.Fnat.fnatFast yet: tied by correspondence)."),
         note=BASE_NOTE + "Float distance decision = exact decision outside the proved margin 8u c^2 (Props/C08K.lean: contact_decision_eq, residue_pair_decision_eq for np.min(...) <= cutoff of compute_fnat_fast, strict variants; abstract IEEE rounding contract); generated distances are >= 1e-6 off a cutoff or exactly on it.",
         technique='Lean 4 proof model = definition for both routes + differential correspondence; known finding C08-F2',
         design_ref='DESIGN.md 5/C08, 12'),
@@ -269,7 +271,11 @@ CLAIMED = {
               "radicand is the minimum over all rigid motions (centroid_optimal_translation, irmsd_is_min, lrmsd_is_fit_then_eval) with the kernel hypothesis discharged from C06 (kernel_optimal_from_C06); identical "
               "structures score 0 (identical_scores_zero, L-RMSD partial without rank >= 2); the raw-column readers are PROVED to see the parsed table for files that parse and whose chain column is non-blank "
               "(raw_agrees_of_parse, pairs_of_parsed_files), and the kernel hypothesis is discharged for both methods (kernel_optimal_from_C06_quaternion, irmsd_is_min_both_methods). Correspondence: generated complexes and decoys (jitter, rigid moves, deletions, interleaving, negative/4-digit numbering), cutoffs 5-12, "
-              "both routines x both methods x enforcement; values recomputed from the model's and the Spec's pairs with an independent optimiser (0.0005 + 1e-9)."),
+              "both routines x both methods x enforcement; values recomputed from the model's and the Spec's pairs with an independent optimiser (0.0005 + 1e-9); file names reused across cases and an other-cutoff call on the same object first. "
+              "TRANSLATED ROUTES (py/translate_ext_rmsd.py -> Gen/Rmsd.lean, Props/C07K.lean): the raw-line readers get_xyz_zone_backbone, get_data_zone_backbone, _get_xyz, read_zone, compute_lzone, compute_izone, compute_lrmsd_fast and "
+              "compute_irmsd_fast are translated from the AST on every run (file system, parser, contact routine and rotation kernel as parameters) and proved against the hand models: genr_get_*_zone_backbone_eq_model, genr_get_xyz_eq_model (returned "
+              "values, errors included), genr_compute_lzone_eq_model, genr_compute_izone_eq_model (zone and written file), and the fast routes as a stage decomposition zone stage -> the model's own list functions -> translated kernel "
+              "(genr_compute_lrmsd_fast_stages, genr_compute_irmsd_fast_stages, *_model_stages); driver ops run the generated readers/zones and the harness compares them with the real code."),
         note=BASE_NOTE + "Float evaluation of the kernel and round(.,3) sampled; RawAgrees is a checked hypothesis; the check=False positional path is modelled and sampled, not claimed.",
         technique='Lean 4 proof that each route pairs exactly the definition\'s atoms (multiset equality) + minimality via C06 + differential correspondence with an independent optimiser',
         design_ref='DESIGN.md 5/C07, 12'),
@@ -280,7 +286,8 @@ CLAIMED = {
               "columns 7-11, 55-66, 77-78 and no model output changes when only serial, occupancy, B-factor or element change (ignores_serial_occ_temp_element_text, ignores_serial_occ_temp_element, "
               "ignored_columns_are_the_documented_ones); adding a constant to all residue numbers of both structures leaves pairs, Fnat and clashes unchanged (renumber_invariant); added hydrogens are ignored by Fnat and "
               "clashes (hydrogens_ignored); any reordering gives the same value or an explicit error (permutation_same_or_error). Correspondence on the real routines: the 24 lattice rotations + millesimal translations exactly "
-              "(identical values for all scores incl. DockQ/CAPRI), arbitrary motions within 0.002, column edits, renumbering incl. 4-digit and negative numbers, added hydrogens, four permutation classes x both enforcement settings."),
+              "(identical values for all scores incl. DockQ/CAPRI), arbitrary motions within 0.002, column edits, renumbering incl. 4-digit and negative numbers, added hydrogens, four permutation classes x both enforcement settings; exact translations "
+              "by thousands of Angstrom inside the PDB columns. Props/C11K.lean re-exports the stage decomposition of the translated fast routes (the metamorphic theorems act on the model's list stage)."),
         note=BASE_NOTE + "Pairs whose distances are within 0.01 A of a cutoff are regenerated and counted; DockQ/CAPRI invariance is harness-side.",
         technique='Lean 4 metamorphic theorems over the score models + metamorphic runs of the real routines (exact lattice motions)',
         design_ref='DESIGN.md 5/C11, 12'),
